@@ -103,14 +103,14 @@ class SenderWorld:
             if outputs is None:
                 out.append(('C07: a balanced sender without an output table does not send', z3.Not(do_send)))
             else:
-                some = [z3.And(zb(o[0]), nz(o[1])) for o in outputs.values()]
+                some = [z3.And(nz(o[0]), nz(o[1])) for o in outputs.values()]
                 out.append(('C07: do_send implies some output is ready (out_do_send and out_nrequested)', z3.Implies(do_send, z3.Or(*some) if some else z3.BoolVal(False))))
                 for p, o in outputs.items():
                     mine = [c for c in cl.values() if c.pull is p]
                     out.append(('C04/C07: an output marked ready has only requested-or-ephemeral clients',
-                                z3.Implies(z3.And(do_send, zb(o[0])), z3.And(*[z3.Or(nz(c.requested), nz(c.ephemeral)) for c in mine])) if mine else z3.BoolVal(True)))
-                    out.append(('C07: the request count of an output is that of its clients (0 when it has no requesting client)',
-                                z3.Implies(nz(o[1]), z3.Or(*[nz(c.requested) for c in mine])) if mine else z3.Not(nz(o[1]))))
+                                z3.Implies(z3.And(do_send, nz(o[0])), z3.And(*[z3.Or(nz(c.requested), nz(c.ephemeral)) for c in mine])) if mine else z3.BoolVal(True)))
+                    # (no clause ties the request COUNT of an output to its clients: CLOSE removes a client without recomputing the table, so the count may be stale;
+                    #  what the publish needs is only that the remaining clients of a ready output have asked)
         return out
 
 
@@ -160,6 +160,8 @@ CFGS = [dict(balance=b, K=k, required=r, push=p, tm=t) for b in (False, True) fo
 
 
 class SoakLoop:
+    heap_keeps = (('pullsock', 'incoming'),)      # scratch of the socket model: written by the poll model before recv_multipart reads it in the same iteration
+
     def __init__(self, W):
         self.W = W
 
@@ -169,6 +171,10 @@ class SoakLoop:
     def havoc(self, ex, env):
         self.W.fresh_state(ex, env)
         env.assign('ret', fresh_bool('soak_ret'))
+        env.assign('poll_timeout', fresh_int('soak_poll_timeout'))      # the given timeout, or 0 once a `new` request was soaked up
+
+    def heap_havocs(self, ex, env):
+        return [(self.W.me, 'clients'), (self.W.me, 'min_send_id')]
 
 
 class PollRecvContract(Unit):
@@ -176,9 +182,13 @@ class PollRecvContract(Unit):
     targets = (f'{ZMQ}::ZMQSender.send.poll_recv',)
     required_covers = ('poll_recv returned', 'polled:request', 'polled:close')
     bounded = {'client universe': '1..2 ids (+ unknown new clients), 2 bind addresses'}
+    mutants = (
+        ('gate ignores a synchronized client that has not asked', f'{ZMQ}::ZMQSender.send.poll_recv', 'elif not requested and not ephemeral:', 'elif False:', 'SInv after poll_recv'),
+        ('fast-forward does not move min_send_id', f'{ZMQ}::ZMQSender.send.poll_recv', 'self.min_send_id = min_send_id = prev_id + 1', 'min_send_id = prev_id + 1', 'C02.ffwd'),
+    )
 
     def shapes(self, tier):
-        return [c for c in CFGS if c['tm'] == 'dict' and not c['push']] if tier == 'quick' else [dict(c, K=k) for c in CFGS if c['tm'] == 'dict' and not c['push'] for k in (c['K'], 3) if k != 2 or c['K'] == 2]
+        return [c for c in CFGS if c['tm'] == 'dict' and not c['push'] and not (c['balance'] and c['K'] == 2)] if tier == 'quick' else [dict(c, K=k) for c in CFGS if c['tm'] == 'dict' and not c['push'] for k in (c['K'], 3) if k != 2 or c['K'] == 2]
 
     def run(self, shape, dec):
         ex, W = setup(shape, dec)
@@ -227,6 +237,10 @@ class SendMaybeContract(Unit):
     targets = (f'{ZMQ}::ZMQSender.send.send_maybe',)
     required_covers = ('send_maybe published', 'send_maybe declined')
     bounded = {'client universe': '1..2 ids, 2 bind addresses'}
+    mutants = (
+        ('request marks survive the publish', f'{ZMQ}::ZMQSender.send.send_maybe', 'ZMQSender.Client(client_id, pull, t_last, False, ephemeral, prev_id)', 'ZMQSender.Client(client_id, pull, t_last, _, ephemeral, prev_id)', 'C04.one_publish_per_request'),
+        ('publish on a closed gate', f'{ZMQ}::ZMQSender.send.send_maybe', 'if (not do_send or not clients) and not push:', 'if not clients and not push:', 'C03.gate'),
+    )
 
     def shapes(self, tier):
         return CFGS
@@ -306,6 +320,9 @@ class GlueLoop:
         if env.function_frame().v.get('timeout') is not None:
             env.function_frame().v['timeout'] = fresh_int('timeout_left')
         env.assign('res', fresh_bool('res'))
+
+    def heap_havocs(self, ex, env):
+        return [(self.W.me, 'clients'), (self.W.me, 'min_send_id')]
 
 
 class SendGlue(Unit):
